@@ -303,7 +303,7 @@ def cases(ctx):
         for nv in (1, 3):
             yield "refuse_ndim", {"ndim": ndim, "nvdim": nv}
     g = _geom(rng, nmin=2)
-    for what in ("scalar_nvdim2", "scalar_nvdim3", "contour_nvdim2", "contour_nvdim3", "vector_nvdim1", "vector_nvdim1_vdims", "vector_nvdim4_vdims",
+    for what in ("scalar_nvdim2", "scalar_nvdim3", "contour_nvdim2", "contour_nvdim3", "vector_nvdim1", "vector_nvdim1_vdims",
                  "vector_nvdim3_nomapping", "vector_vdims_len3", "vector_vdims_none_none", "lightness_nvdim4", "call_nvdim4",
                  "filter_nvdim2", "filter_ndim3", "filter_ndim1", "color_nvdim3", "color_ndim3", "lightness_field_nvdim2", "lightness_field_ndim3",
                  "contour_filter_nvdim2", "lightness_filter_nvdim3"):
